@@ -10,7 +10,7 @@ oracle: real loads → dumps → loads on every loadable corpus file and on sche
         keyword and value shape; dictionaries compared modulo an independently computed allowed-difference normaliser; the written
         text must load."""
 from __future__ import annotations
-import json
+import json, re
 from vlib import core, gen, corpus, trees, ppcommon
 
 LEVEL_NOTE = [
@@ -97,8 +97,8 @@ def excluded(d):
         if isinstance(x, (list, tuple)):
             return any(walk(v, t, k) for v in x)
         if isinstance(x, str):
-            if '"' in x:
-                return True
+            if re.search(r'(?<!\\)"', x):
+                return True          # an UNESCAPED output quote (an escaped one, \", is inside the property's scope)
             node = prop_schema(t, k) or {}
             exprish = any(kk in node for kk in ("oneOf", "anyOf")) or node.get("description") == "expression"
             return exprish and looks_like_syntax(x) and False
@@ -162,6 +162,11 @@ def explore(ctx, scale=1.0):
                         gen.FORCE_STRING = None
                     if b.items:
                         docs.append((gen.render(b), "cell:string:" + (forced or "empty").replace(" ", "-")))
+    # escaped occurrences of the output quote (in scope: only UNESCAPED ones are excluded), at the start, in the middle and at the
+    # very end of a string, at plain string keywords and at keywords whose schema lists several alternatives
+    for T, K in (("class", "text"), ("label", "text"), ("layer", "filter"), ("class", "expression"), ("layer", "name"), ("class", "name"), ("style", "symbol"), ("web", "template")):
+        for body in ('say \\"hi\\"', 'a\\"b c', '\\"start', 'type=\\"road\\"'):
+            docs.append((f'{T.upper()}\n  {K.upper()} "{body}"\nEND', "escaped-quote"))
     for i in range(int((3000 if ctx.thorough else 150) * scale)):
         b = gen.gen_block(rng, rng.choice(gen.BLOCK_TYPES + ["map", "layer", "class"]), depth=rng.choice([1, 2, 3]), max_items=8)
         docs.append((gen.render(b, gen.Layout(rng, plain=rng.random() < .5)), "random"))
